@@ -126,6 +126,14 @@ def gen_cases(ck):
             p = gen_vec(rng, n, rng.choice(KINDS))
             r = gen_vec(rng, n, rng.choice(["sparse", "point", "uniform"]))
             cases.append(("identical_pair", n, p, list(p), r))
+    # large registers (vectors of 2^15, 2^16 entries): identical, near-identical, disjoint and generic pairs
+    for n in ((15,) if ck.tier == "quick" else (15, 16, 17)):
+        p = gen_vec(rng, n, "dense" if "dense" in KINDS else KINDS[0])
+        q = near(rng, p)
+        cases.append(("large_register", n, p, list(p), q))
+        cases.append(("large_register", n, p, q, near(rng, q)))
+        a, b = disjoint(rng, n)
+        cases.append(("large_register", n, a, b, gen_vec(rng, n, rng.choice(KINDS))))
     # exhaustive degenerate layer: all pairs of point masses and the uniform vector for n <= 2
     for n in (1, 2):
         N = 2 ** n
@@ -212,6 +220,18 @@ def oracle_triple(fn, np, n, kp, kq, kr):
         if v.hex() != vals["pr"].hex():
             return ("H(p,r)=%r when the %s argument is an array re-filled in place after an earlier call, %r when passed fresh arrays with the same contents"
                     % (v, "first" if slot == 0 else "second", vals["pr"]))
+    # a degenerate (one-hot) distribution given as an INTEGER or BOOL array, in either argument position, is the same distribution
+    for nm, (a, b, want) in {"int p": (p, q, "pq"), "int q": (q, p, "qp")}.items():
+        if all(x in (0.0, 1.0) for x in a):
+            for dt in (int, bool, np.float32):
+                try:
+                    with np.errstate(all="ignore"):
+                        v = float(fn(np.array(a).astype(dt), np.array(b, dtype=float), n))
+                        w = float(fn(np.array(b, dtype=float), np.array(a).astype(dt), n))
+                except Exception as e:  # noqa
+                    return "raised %s when a one-hot distribution is passed with dtype %s" % (type(e).__name__, np.dtype(dt).name)
+                if abs(v - vals[want]) > TOL or abs(w - vals[want]) > TOL:
+                    return "H=%r / %r when a one-hot distribution is passed as a %s array (first / second argument), %r as float64" % (v, w, np.dtype(dt).name, vals[want])
     if abs(vals["pq"] - vals["qp"]) > TOL:
         return "not symmetric: H(p,q)=%r H(q,p)=%r" % (vals["pq"], vals["qp"])
     if vals["pr"] > vals["pq"] + vals["qr"] + TOL:
